@@ -664,7 +664,9 @@ def put_record(vals, rec):
         if '*' in s:
             raise ValueError('%s.%s: %r does not fit' % (rec, f.name, v))
         buf[f.start:f.end] = list(s)
-    return ''.join(buf).rstrip()
+    # a formatted WRITE puts out the whole record, blank fields included: nothing is trimmed (a trimmed record
+    # would shorten a name that ends in blanks)
+    return ''.join(buf)
 
 
 def _put_list(out, vals, rec, per):
